@@ -222,7 +222,23 @@ fn forbidden(env: &Env, it: &Item) {
     let mut idu = [0u8; 192]; idu[0] = 0x40;
     let (x, y): ([u8; 96], [u8; 96]) = (idu[..96].try_into().unwrap(), idu[96..].try_into().unwrap());
     expect_err(Kind::Pk, "(x,y)", "identity", &idu, "coordinates", zk.pk_from_coords(&x, &y));
+    // uncompressed forms of the forbidden G2 classes (same scan as for the compressed form)
+    for x in 1u32..2000 {
+        let mut c = vec![0u8; 96]; c[92..].copy_from_slice(&x.to_be_bytes()); c[0] |= 0x80;
+        let a: [u8; 96] = c.clone().try_into().unwrap();
+        let p = G2Affine::from_compressed_unchecked(&a);
+        if bool::from(p.is_some()) && !bool::from(p.unwrap().is_torsion_free()) {
+            let u = p.unwrap().to_uncompressed();
+            let (ux, uy): ([u8; 96], [u8; 96]) = (u[..96].try_into().unwrap(), u[96..].try_into().unwrap());
+            expect_err(Kind::Pk, "(x,y)", "on curve, outside the prime-order subgroup", &u, "coordinates", zk.pk_from_coords(&ux, &uy));
+            break;
+        }
+    }
+    { let mut xp = [0u8; 96]; xp[..48].copy_from_slice(&hex::decode(P_BE).unwrap()); let y0 = [0u8; 96]; expect_err(Kind::Pk, "(x,y)", "x.c1 = p (not reduced)", &[xp.to_vec(), y0.to_vec()].concat(), "coordinates", zk.pk_from_coords(&xp, &y0)); }
+    { let mut xi = idu; xi[191] = 1; let (x2, y2): ([u8; 96], [u8; 96]) = (xi[..96].try_into().unwrap(), xi[96..].try_into().unwrap()); expect_err(Kind::Pk, "(x,y)", "infinity flag with non-zero coordinates", &xi, "coordinates", zk.pk_from_coords(&x2, &y2)); }
     if let O::Ok((hx, hy)) = zk.pk_to_coords(&b.key.pk) {
+        { let mut x3 = hx.clone(); x3[0] |= 0x20; expect_err(Kind::Pk, "(x,y)", "sort flag set in uncompressed form", &[x3.clone(), hy.clone()].concat(), "coordinates", zk.pk_from_coords(&x3.try_into().unwrap(), &hy.clone().try_into().unwrap())); }
+        { let mut x4 = hx.clone(); x4[0] |= 0x40; expect_err(Kind::Pk, "(x,y)", "infinity flag set on a finite point", &[x4.clone(), hy.clone()].concat(), "coordinates", zk.pk_from_coords(&x4.try_into().unwrap(), &hy.clone().try_into().unwrap())); }
         let mut y2 = hy.clone(); y2[95] ^= 1;
         expect_err(Kind::Pk, "(x,y)", "y altered (not on curve)", &[hx.clone(), y2.clone()].concat(), "coordinates", zk.pk_from_coords(&hx.clone().try_into().unwrap(), &y2.try_into().unwrap()));
         let mut x2 = hx.clone(); x2[0] |= 0x80;
